@@ -342,14 +342,37 @@ def guardRemove (w : World) (g : Nat) (p : Pid) : World × Bool :=
     | .error f => (w.fail s!"guard remove: {f}", false)
   | none => (w, false)
 
-/-- `cmb_resourceguard_signal` with forwarding to observers; `fuel` bounds observer chains (acyclic by precondition) -/
-def guardSignal : Nat → World → Nat → World
-  | 0, w, _ => w.fail "observer chain too deep (cycle?)"
-  | fuel + 1, w, g =>
+/-- `cmb_condition_signal`: every waiter (in heap-array order) whose predicate holds is woken and removed -/
+def condSignal (w : World) (g : Nat) : World × Bool :=
+  match w.guards[g]? with
+  | none => (w, false)
+  | some gd =>
+    if gd.q.count = 0 then (w, false) else
+    let tags := HashHeap.liveTags gd.q
+    let sat := tags.filter fun t => evalDemand w ((gd.demands.lookup t.key).getD (.cond 99 0 0))
+    let w := sat.foldl (fun w t =>
+      let pid := t.key - 1
+      (sched w aCond (pid + 1) sigSuccess w.now (w.proc pid).prio).1) w
+    let w := sat.foldl (fun w t => (guardRemove w g (t.key - 1)).1) w
+    (w, sat.length > 0)
+
+/-- the guard carries a handler for forwarded signals (`on_signal != NULL`): `cmb_condition_initialize` installs one on the
+    guard of every condition variable, nobody else does — so: `g` is the guard of a condition -/
+def hasHandler (w : World) (g : Nat) : Bool := w.conds.contains g
+
+/-- `cmb_resourceguard_signal` (`fwd = false`) and the delivery of a forwarded signal to an observer (`fwd = true`:
+    the body of the loop of `forward_signal`), both followed by `forward_signal` to the guard's own observers.
+    A forwarded signal reaches an observer with a handler (a condition) as `cmb_condition_signal` — every waiter is
+    evaluated —, any other observer as a plain `cmb_resourceguard_signal` (front waiter only).
+    `fuel` bounds observer chains (acyclic by precondition) -/
+def guardSignalF : Bool → Nat → World → Nat → World
+  | _, 0, w, _ => w.fail "observer chain too deep (cycle?)"
+  | fwd, fuel + 1, w, g =>
     match w.guards[g]? with
     | none => w
     | some gd =>
       let w :=
+        if fwd && hasHandler w g then (condSignal w g).1 else
         if gd.q.count = 0 then w else
         match HashHeap.peek gd.q with
         | .ok (some t) =>
@@ -364,7 +387,10 @@ def guardSignal : Nat → World → Nat → World
           else w
         | .ok none => w
         | .error f => w.fail s!"guard peek: {f}"
-      gd.observers.foldl (fun w o => guardSignal fuel w o) w
+      gd.observers.foldl (fun w o => guardSignalF true fuel w o) w
+
+/-- `cmb_resourceguard_signal` with forwarding to observers -/
+def guardSignal (fuel : Nat) (w : World) (g : Nat) : World := guardSignalF false fuel w g
 
 def signal (w : World) (g : Nat) : World := guardSignal 8 w g
 
